@@ -96,6 +96,8 @@ def _hook(event, args):
     if event not in ("open", "os.mkdir", "os.remove", "os.rename", "os.rmdir", "shutil.rmtree"):
         return
     p = args[0] if args else None
+    if hasattr(p, "__fspath__"):
+        p = os.fspath(p)           # pathlib paths handed to io.FileIO / os functions
     if isinstance(p, bytes):
         p = p.decode("utf-8", "replace")
     if not isinstance(p, str) or not p.startswith(f.root):
@@ -164,11 +166,43 @@ def _patched_open(file, *a, **kw):
     return real
 
 
+_real_fileio = io.FileIO
+
+
+class ShortWriteFileIO(_real_fileio):
+    """raw files opened with io.FileIO directly: a full disk shows as the kernel reports it -- a SHORT write now (the count
+    of bytes written is returned, no error), the error only on the following write"""
+
+    def write(self, b):
+        f = FAULT
+        try:
+            p = os.fspath(self.name)
+        except TypeError:
+            p = None
+        if f.armed_file is not None and p == f.armed_file:
+            data = bytes(b)
+            cut = f.cut(data, p) if callable(f.cut) else 0
+            f.armed_file = None
+            if f.kind == "crash-mid":
+                if cut:
+                    _real_fileio.write(self, data[:cut])
+                f.dead = True
+                raise CrashNow()
+            self._fail_next = True
+            if cut:
+                return _real_fileio.write(self, data[:cut])
+            raise OSError(errno.ENOSPC, "No space left on device (injected)")
+        if getattr(self, "_fail_next", False):
+            raise OSError(errno.ENOSPC, "No space left on device (injected)")
+        return _real_fileio.write(self, b)
+
+
 def install():
     if not _installed[0]:
         sys.addaudithook(_hook)
         builtins.open = _patched_open
         io.open = _patched_open
+        io.FileIO = ShortWriteFileIO
         _installed[0] = True
 
 
